@@ -257,9 +257,10 @@ type PopOpts struct {
 	PresentPct   int // probability (percent) that a leaf is populated
 	MaxEntries   int
 	LooseEntries bool // entries need not populate their first field (blank entries possible); never for parsing checks
+	Styles       bool // draw assembly styles (Pop.Build) for components and groups
 }
 
-var DefaultPop = PopOpts{Decoys: true, PresentPct: 70, MaxEntries: 4}
+var DefaultPop = PopOpts{Decoys: true, PresentPct: 70, MaxEntries: 4, Styles: true}
 
 func GenCase(t *rapid.T, o Opts, po PopOpts) *Case {
 	tpl := GenTemplate(t, o)
@@ -293,8 +294,14 @@ func genPops(t *rapid.T, ns []*Node, po PopOpts, decoys []string, forceFirst boo
 				p.V = genVal(t, n.T, lbl+"V", decoys, po.Small)
 			}
 		case KComp:
+			if po.Styles {
+				p.Build = rapid.SampledFrom([]int{0, 0, 1, 2}).Draw(t, lbl+"CompBuild")
+			}
 			p.Items = genPops(t, n.Items, po, decoys, force, depth+1, lbl)
 		case KGroup:
+			if po.Styles {
+				p.Build = rapid.SampledFrom([]int{0, 0, 1, 2, 4, 5, 6}).Draw(t, lbl+"GroupBuild")
+			}
 			max := po.MaxEntries
 			if depth > 0 && max > 3 {
 				max = 3
